@@ -22,14 +22,21 @@ var _ = Vassert
 //@ func UnmarshalBatchedTokenResponses(data []byte) (resps [][]byte, err error)
 //@ props C03 C04 C05 C16
 //@ let in = string(data)
+//@ let vk = quicwire.ConsumeVarintLen(data[0])
+//@ let vl = int(quicwire.ConsumeVarintValue(string(data)))
 //@ ensures err == nil ==> quicwire.ConsumeVarintOK(in) && quicwire.ConsumeVarintValue(in) <= uint64(len(data)-quicwire.ConsumeVarintLen(data[0]))
+//@ ensures[C04 C05] (err == nil) == (quicwire.ConsumeVarintOK(in) && quicwire.ConsumeVarintValue(in) <= uint64(len(data)-vk) && SpecRespCount(in[vk:vk+vl]) >= 0)
+//@ ensures[C04 C05] err == nil ==> len(resps) == SpecRespCount(in[vk:vk+vl])
 //@ ensures err != nil ==> resps == nil
 //@ assigns none
 //@ alloc 64*len(data) + 4096
-//@ loop 0 vars(token_responses_string cryptobyte.String, token_responses [][]byte)
+//@ loop 0 vars(token_responses_string cryptobyte.String, token_responses [][]byte, offset int, l uint64)
 //@   invariant len(token_responses_string) <= len(data)
 //@   invariant cap(token_responses) == 0 || fresh(token_responses)
 //@   invariant len(token_responses) <= len(data)-len(token_responses_string)
+//@   invariant[C04 C05] offset >= 0 && l <= uint64(len(data)-offset)
+//@   invariant[C04 C05] (SpecRespCount(string(data[offset:offset+int(l)])) >= 0) == (SpecRespCount(string(token_responses_string)) >= 0)
+//@   invariant[C04 C05] SpecRespCount(string(token_responses_string)) >= 0 ==> SpecRespCount(string(data[offset:offset+int(l)])) == len(token_responses)+SpecRespCount(string(token_responses_string))
 //@   decreases len(token_responses_string)
 //@ end
 
@@ -101,3 +108,173 @@ func SpecBatchReqsOK(body string) bool {
 //@ ensures err != nil ==> res == nil
 //@ assigns none
 //@ end
+
+// ---------------------------------------------------------------------------
+// Response lists (C05)
+
+// specRespLen: the length of a token response of the given token type (-1: not carried by the generic batch).
+//
+//@ spec
+func specRespLen(t uint16) int {
+	if t == type1.BasicPrivateTokenType {
+		return type1.Ne + 2*type1.Nk
+	}
+	if t == type2.BasicPublicTokenType {
+		return type2.Nk
+	}
+	return -1
+}
+
+// specEntryLen: the length of the first entry of a response list (00, or 01 || token_type || response), or
+// -1 if the list does not start with a complete entry.
+//
+//@ spec
+func specEntryLen(body string) int {
+	if len(body) == 0 {
+		return -1
+	}
+	if body[0] == 0 {
+		return 1
+	}
+	if body[0] != 1 || len(body) < 3 {
+		return -1
+	}
+	n := specRespLen(uint16(body[1])*256 + uint16(body[2]))
+	if n < 0 || len(body) < 3+n {
+		return -1
+	}
+	return 3 + n
+}
+
+// SpecRespCount: the number of entries of a well-formed response list, -1 for a malformed one.
+//
+//@ spec rec
+func SpecRespCount(body string) int {
+	if len(body) == 0 {
+		return 0
+	}
+	n := specEntryLen(body)
+	if n < 0 {
+		return -1
+	}
+	r := SpecRespCount(body[n:])
+	if r < 0 {
+		return -1
+	}
+	return r + 1
+}
+
+// Appending one complete entry to a well-formed list gives a well-formed list with one more entry
+// (induction over the list; the statement is then available to the other proofs as a fact).
+//
+//@ lemma auto props C05
+//@ requires SpecRespCount(a) >= 0 && len(e) > 0 && specEntryLen(e) == len(e)
+//@ ensures SpecRespCount(a+e) == SpecRespCount(a)+1
+//@ decreases len(a)
+func lemmaRespAppend(a, e string) {
+	if len(a) == 0 {
+		Vassert(SpecRespCount(e[len(e):]) == 0)
+		return
+	}
+	n := specEntryLen(a)
+	Vassert(n >= 1 && n <= len(a))
+	lemmaRespAppend(a[n:], e)
+	Vassert(specEntryLen(a+e) == n)
+	Vassert((a + e)[n:] == a[n:]+e)
+}
+
+// The same fact in the shape in which EvaluateBatch writes entries.
+//
+//@ lemma auto props C05
+//@ requires SpecRespCount(a) >= 0 && specRespLen(t) == len(r)
+//@ ensures SpecRespCount(a+B1(1)+U16(t)+r) == SpecRespCount(a)+1
+func lemmaRespAppendPresent(a string, t uint16, r string) {
+	e := B1(1) + U16(t) + r
+	Vassert(specEntryLen(e) == len(e))
+	lemmaRespAppend(a, e)
+	Vassert(a+B1(1)+U16(t)+r == a+e)
+}
+
+//@ lemma auto props C05
+//@ requires SpecRespCount(a) >= 0
+//@ ensures SpecRespCount(a+B1(0)) == SpecRespCount(a)+1
+func lemmaRespAppendAbsent(a string) {
+	lemmaRespAppend(a, B1(0))
+}
+
+// Issuers handed to the generic batch issuer are user code behind an interface. Assumed: key ids are not
+// empty, and an evaluation that succeeds returns a token response of the length that belongs to the
+// request's token type (so only type-1 / type-2 requests can succeed); an issuer writes no memory that
+// existed before the call (the type-1 and type-2 issuers' Evaluate are proved to behave so).
+//
+//@ iface ($PKG.Issuer).TokenKeyID func(i Issuer) (id []byte)
+//@ ensures len(id) >= 1
+//@ assigns none
+//@ end
+
+//@ iface ($PKG.Issuer).Evaluate func(i Issuer, req tokens.TokenRequest) (resp []byte, err error)
+//@ ensures err == nil ==> len(resp) == specRespLen(tokens.ReqType(req))
+//@ assigns none
+//@ end
+
+//@ iface ($PKG.Issuer).Type func(i Issuer) (t uint16)
+//@ assigns none
+//@ pure
+//@ end
+
+// specIssuersOK: no configured issuer is nil (NewBasicBatchedIssuer calls Type() on each, so it cannot store
+// a nil issuer; this is a precondition of EvaluateBatch here, not proved of the constructor, whose loop needs
+// a nested invariant over a map of slices that the solvers do not carry through append).
+//
+//@ spec
+func specIssuersOK(i BasicBatchedIssuer) bool {
+	return Forall(0, 65536, func(t int) bool {
+		return Forall(0, len(i.issuers[uint16(t)]), func(k int) bool { return i.issuers[uint16(t)][k] != nil })
+	})
+}
+
+// EvaluateBatch answers with a well-formed response list that has exactly one entry per request: a slot is
+// either empty (absent entry 00) or holds a response of the length of its request's token type (present
+// entry 01 || type || response).
+//
+//@ func (iss BasicBatchedIssuer) EvaluateBatch(req *BatchedTokenRequest) (out []byte, err error)
+//@ props C05 C03 C16
+//@ requires req != nil && specIssuersOK(iss)
+//@ requires forall(0, len(req.token_requests), func(k int) bool { return req.token_requests[k] != nil })
+//@ let n = len(req.token_requests)
+//@ ensures err == nil
+//@ ensures quicwire.ConsumeVarintOK(string(out)) && int(quicwire.ConsumeVarintValue(string(out))) == len(out)-quicwire.ConsumeVarintLen(out[0])
+//@ ensures SpecRespCount(string(out[quicwire.ConsumeVarintLen(out[0]):])) == n
+//@ ensures fresh(out)
+//@ assigns none
+//@ alloc 64*len(req.token_requests) + 4096
+//@ loop 0 vars(responses [][]byte, RESPONSE_ERROR []byte)
+//@   invariant len(responses) == len(req.token_requests) && fresh(responses) && sameslice(req.token_requests, old(req.token_requests))
+//@   invariant len(RESPONSE_ERROR) == 0 || len(RESPONSE_ERROR) == 1
+//@   invariant forall(0, len(responses), func(k int) bool { return len(responses[k]) == 0 || len(responses[k]) == specRespLen(tokens.ReqType(req.token_requests[k])) })
+//@ loop 1 vars(responses [][]byte, RESPONSE_ERROR []byte)
+//@   invariant len(responses) == len(req.token_requests) && fresh(responses) && sameslice(req.token_requests, old(req.token_requests))
+//@   invariant forall(0, len(responses), func(k int) bool { return len(responses[k]) == 0 || len(responses[k]) == specRespLen(tokens.ReqType(req.token_requests[k])) })
+//@ loop 2 vars(responses [][]byte, bResps *cryptobyte.Builder, i int)
+//@   invariant len(responses) == len(req.token_requests) && sameslice(req.token_requests, old(req.token_requests))
+//@   invariant bResps != nil && fresh(bResps) && !BuilderErr(bResps)
+//@   invariant 0 <= i && i <= len(responses)
+//@   invariant SpecRespCount(BuilderBytes(bResps)) == i
+//@   invariant forall(0, len(responses), func(k int) bool { return len(responses[k]) == 0 || len(responses[k]) == specRespLen(tokens.ReqType(req.token_requests[k])) })
+//@ end
+
+// C05 (count and order of entries): whatever the batch and the configured issuers, the response of
+// EvaluateBatch decodes, and the decoded list has exactly one entry per request. (Entry k is written from
+// slot k, which only request k's evaluation fills: see the loop invariants of EvaluateBatch.)
+//
+//@ lemma props C05
+func lemmaBatchResponseDecodes(iss BasicBatchedIssuer, req *BatchedTokenRequest) {
+	Vassume(req != nil && specIssuersOK(iss))
+	Vassume(Forall(0, len(req.token_requests), func(k int) bool { return req.token_requests[k] != nil }))
+	n := len(req.token_requests)
+	out, err := iss.EvaluateBatch(req)
+	Vassert(err == nil)
+	resps, err2 := UnmarshalBatchedTokenResponses(out)
+	Vassert(err2 == nil)
+	Vassert(len(resps) == n)
+}
